@@ -290,7 +290,7 @@ func ruleP10(c *Ctx, rels ...string) {
 			n++
 			sort.Strings(byKind[k])
 			first := byKind[k][0]
-			c.bad(funcName(fn)+" orders by "+k, srcs[first], "a string ordering at %s compares text produced by %s: the rendering is not order preserving (negative numbers, exponents, time zones), so rows are sorted or compared wrongly", c.pos(srcs[first]), strings.Join(byKind[k], ", "))
+			c.bad(funcName(c.attributionRoot(fn))+" orders by "+k, srcs[first], "a string ordering at %s compares text produced by %s: the rendering is not order preserving (negative numbers, exponents, time zones), so rows are sorted or compared wrongly", c.pos(srcs[first]), strings.Join(byKind[k], ", "))
 		}
 	}
 	if n == 0 {
@@ -541,6 +541,48 @@ func ruleP12(c *Ctx) {
 							if (bo.Op == token.LSS && !ft.Truth) || (bo.Op == token.GEQ && ft.Truth) {
 								signOK = true
 							}
+						}
+					}
+				}
+			}
+			// the value may have been validated by a same-package helper that returns it: then both tests must hold at
+			// every success return of the helper, and the store must lie on the helper's err == nil edge
+			if ex, ok := st.Val.(*ssa.Extract); ok && ex.Index == 0 && !(typeOK && signOK) {
+				if call, ok := ex.Tuple.(*ssa.Call); ok {
+					if callee := helperCallee(fn, &call.Call); callee != nil {
+						errChecked := false
+						for _, ft := range c.factsForInstr(in) {
+							if bo, ok := ft.Cond.(*ssa.BinOp); ok && isNilConst(bo.Y) {
+								if e2, ok := bo.X.(*ssa.Extract); ok && e2.Tuple == ssa.Value(call) && e2.Index == call.Call.Signature().Results().Len()-1 && (bo.Op == token.EQL) == ft.Truth {
+									errChecked = true
+								}
+							}
+						}
+						hT, hS, nRet := true, true, 0
+						for _, r := range c.returnsOf(callee) {
+							rv := resultValues(r)
+							if len(rv) < 2 || !isNilConst(rv[len(rv)-1]) {
+								continue
+							}
+							nRet++
+							tOK, sOK := false, false
+							for _, ft := range c.fi(callee).factsAt(r.Block()) {
+								t := c.term(ft.Cond)
+								if strings.Contains(t, ").Type(") && strings.Contains(t, "!= ") && !ft.Truth || strings.Contains(t, ").Type(") && strings.Contains(t, "== ") && ft.Truth {
+									tOK = true
+								}
+								if bo, ok := ft.Cond.(*ssa.BinOp); ok {
+									if v, isC := constInt(bo.Y); isC && v == 0 && (c.term(bo.X) == c.term(rv[0]) || sameExtract(bo.X, rv[0])) {
+										if (bo.Op == token.LSS && !ft.Truth) || (bo.Op == token.GEQ && ft.Truth) {
+											sOK = true
+										}
+									}
+								}
+							}
+							hT, hS = hT && tOK, hS && sOK
+						}
+						if errChecked && nRet > 0 {
+							typeOK, signOK = typeOK || hT, signOK || hS
 						}
 					}
 				}
